@@ -29,7 +29,8 @@ def run_deductive(rep):
     rep.trust("pandas df[col] selects the column; list()/np.asarray copy values positionally (assumed)", "z3 (string theory)", "pyvc symbolic executor",
               "pandas groupby(keys).apply(f) evaluates f on the rows of every observed key combination; reindex(product index) adds missing combinations as NaN (assumed; "
               "the obligations check that fairlearn calls them with the right keys, function and index)")
-    items = [(AnnotatedCall({}), []),
+    items = [(AnnotatedCall({}), []), (AnnotatedCall({}, rank=2), [("sample_axis_squeezed_away", verify.replace_expr("np.asarray(list(df[arg_name]))", "np.squeeze(np.asarray(list(df[arg_name])))"))]),
+             (AnnotatedCall({"sample_weight": "m_sample_weight"}, rank=2), []),
              (AnnotatedCall({"sample_weight": "m_sample_weight", "extra": "m_extra"}),
               [("keyword_read_from_its_own_name_instead_of_mapped_column", verify.replace_expr("df[data_arg_name]", "df[func_arg_name]")),
                ("second_positional_dropped", verify.replace_expr("self.postional_argument_names", "self.postional_argument_names[:1]"))]),
